@@ -16,7 +16,7 @@ import fsic
 
 from .. import refsolve, scripted, spans
 from ..core.observe import observe, diff_obs
-from ..core.runner import Acc, guard, CaseTimeout
+from ..core.runner import Acc, guard, CaseTimeout, robust
 
 ID = 'C05'
 LEVEL = 'model_checking'
@@ -75,6 +75,7 @@ def label_of(labels, i, kind):
     return labels[i]
 
 
+@robust(1, 0)
 def run_pair_case(case):
     kind, n, si, ei, fpos, fault = case['span'], case['n'], case['si'], case['ei'], case['fpos'], case['fault']
     kw = dict(max_iter=3, min_iter=case['min_iter'], tol=scripted.TOL, errors=case['errors'], failures=case['failures'])
@@ -176,6 +177,7 @@ def run_pairs(block, tier, acc):
     acc.sample({'span': kind, 'n': n, 'start': 1, 'end': 2, 'fault': 'exc@1', 'errors': 'raise'}, limit=2)
 
 
+@robust()
 def run_period_case(case):
     kind, n, pos, fault = case['span'], case['n'], case['pos'], case['fault']
     kw = dict(max_iter=3, tol=scripted.TOL, errors=case['errors'], failures='ignore')
@@ -214,6 +216,7 @@ def run_period(acc, tier):
             acc.violation('solve_period:absent-label', {'kind': 'period-absent', 'span': kind}, 'KeyError, unchanged', r[0], 'absent label')
 
 
+@robust()
 def run_misc_case(case):
     what = case['what']
     out = []
@@ -253,6 +256,7 @@ PARSER_SCRIPTS = [
 ]
 
 
+@robust()
 def run_parser_case(case):
     cls = fsic.build_model(fsic.parse_model(case['script']))
     kind, n = case['span'], case['n']
